@@ -12,7 +12,7 @@ pub fn generate(r: &mut Rng, tier: &str, emit: &mut dyn FnMut(String)) {
         let tb = r.chance(1, 3);
         let k = crate::c07::Knobs {
             tag: "C12",
-            topo: *r.pick(&[0u64, 0, 1, 2, 3]),
+            topo: *r.pick(&[0u64, 1, 2, 3, 4, 4]),
             steps: r.range(2, 6),
             w_register: 4,
             w_rereg: if tb { 0 } else { 1 },
